@@ -10,7 +10,7 @@ sys.path.insert(0, os.environ["REPLAY_REPO"])
 import numpy as np
 import oqupy
 mode = sys.argv[1]
-N = 4
+N = int(sys.argv[2]) if len(sys.argv) > 2 else 4
 chain = oqupy.SystemChain(hilbert_space_dimensions=[2] * N)
 for n in range(N):
     chain.add_site_hamiltonian(site=n, hamiltonian=0.3 * (n + 1) * oqupy.operators.sigma("x"))
@@ -32,16 +32,18 @@ def parallel_modes(inp):
     # conformance of the assumed import fact
     p = subprocess.run([sys.executable, '-c', 'import concurrent; print(hasattr(concurrent, "futures"))'], capture_output=True, text=True)
     fact = p.stdout.strip()
-    for mode in ('sequential', 'multithread', 'multiprocess'):
-        p = subprocess.run([sys.executable, '-c', SCRIPT, mode], env=dict(os.environ, REPLAY_REPO=repo), capture_output=True, text=True, timeout=600)
-        if p.returncode != 0:
-            bad.append({'mode': mode, 'error': p.stderr.strip().split('\n')[-1][:200]})
-            continue
-        out[mode] = json.loads(p.stdout.strip().split('\n')[-1])
-    ref = out.get('sequential')
-    for mode, res in out.items():
-        if ref is not None and res != ref:
-            bad.append({'mode': mode, 'differs_from_sequential': True})
+    for nsites in (4, 2, 3):        # (a two-site chain has an EMPTY odd layer)
+        out = {}
+        for mode in ('sequential', 'multithread', 'multiprocess'):
+            p = subprocess.run([sys.executable, '-c', SCRIPT, mode, str(nsites)], env=dict(os.environ, REPLAY_REPO=repo), capture_output=True, text=True, timeout=600)
+            if p.returncode != 0:
+                bad.append({'chain length': nsites, 'mode': mode, 'error': p.stderr.strip().split('\n')[-1][:200]})
+                continue
+            out[mode] = json.loads(p.stdout.strip().split('\n')[-1])
+        ref = out.get('sequential')
+        for mode, res in out.items():
+            if ref is not None and res != ref:
+                bad.append({'chain length': nsites, 'mode': mode, 'differs_from_sequential': True})
     return {'violates': bool(bad), 'detail': bad, 'import concurrent binds concurrent.futures in a fresh interpreter': fact}
 
 
